@@ -86,7 +86,7 @@ func c06Restore(c *Ctx) {
 	// in-place writers through parameters in quicutils / sniffing
 	reviewed := map[string]string{
 		"component/sniffing/internal/quicutils.Keys.HeaderProtection_": "removes header protection in place (first byte, packet number): restored by sniffQuicBlock",
-		"component/sniffing.sniffQuicBlock":                              "writes back the saved first byte / packet-number bytes (the restoration itself)",
+		"component/sniffing.sniffQuicBlock":                            "writes back the saved first byte / packet-number bytes (the restoration itself)",
 	}
 	writers := map[string]string{}
 	for _, rel := range []string{"component/sniffing/internal/quicutils", "component/sniffing"} {
